@@ -59,6 +59,11 @@ CLAIMS = {
    ref="§4 C17",
    note="Assumes reachability over an edge set is insertion-order independent; effect sets are closed over static callees within package unused.",
    technique="field effect sets + map-loop body analysis + guard-edge rules on SSA"),
+ "C03": dict(
+   text="Decides, for all programs at once, that no 'unhandled kind' panic is reachable for the closed kinds the code switches on: 42 must-panic type switches are decided against the full universe of implementors (IR instructions constructed by go/ir, go/ast statement/expression/declaration kinds, go/types types), against the inspector filter that feeds them, or against a frozen reviewed case set; builtin-name switches against go/types' universe; unchecked assertions in inspector callbacks against their filter; the type checker's Go version is never pinned. Adding an IR instruction kind, deleting a case or widening a filter is reported with the switch and the kind. Does not decide arbitrary panics or analyzer errors.",
+   ref="§4 C03",
+   note="Case-set sites (universe from grammar/type-checker invariants, one reviewed line each in tables/c03_switches.tsv) only detect the loss of a case; a new must-panic switch must be classified before the check passes (fails loudly rather than silently).",
+   technique="exhaustiveness analysis of type/string switches against universes computed from go/types, inspector filters and reviewed tables"),
 }
 
 NOT_APPLICABLE = {
